@@ -277,6 +277,10 @@ def _trace_job(seeds):
                 s1 = rng.randint(lo, hi)
                 s2 = s1 + rng.randint(-120, 120)
                 hol = sorted({min(s1, s2) + rng.randint(-3, 125) for _ in range(rng.randint(0, 4))})
+                if hol and len(hol) < 4 and rng.random() < 0.4:
+                    # a date listed twice is one holiday; the list need not be sorted (the specification takes the SET of the list)
+                    hol = hol + [rng.choice(hol) for _ in range(rng.randint(1, 4 - len(hol)))]
+                    rng.shuffle(hol)
                 ov = [(0, 7, 0, dt(s1)), (0, 8, 0, dt(s2))] + [(0, 9, r, dt(h)) for r, h in enumerate(hol)]
                 r = p.eval(ov, idxs=(10,))[0]
                 out.append({'f': 'NWD', 'a': [s1, s2], 'u': '', 'h': hol, 'obs': as_int(*r), 'raw': show(*r)})
